@@ -48,11 +48,25 @@ func (p sendProbe[T]) Ready() bool {
 	if len(p.ch) < cap(p.ch) {
 		return true
 	}
+	return isMarkedClosed(chanPtr(p.ch)) // if closed the real send will panic, exactly as in Go
+}
+
+// NOTE: //go:norace is not honoured for instantiations of generic functions, so the generic
+// helpers in this file never touch scheduler state directly; they call the non-generic functions
+// below.
+
+//go:norace
+func isMarkedClosed(p uintptr) bool {
 	s := cur
-	if s != nil && s.closed[chanPtr(p.ch)] {
-		return true // the real send will panic, exactly as in Go
+	return s != nil && s.closed[p]
+}
+
+//go:norace
+func markClosed(p uintptr) {
+	s := cur
+	if s != nil {
+		s.closed[p] = true
 	}
-	return false
 }
 
 //go:norace
@@ -70,7 +84,7 @@ func SendCase[T any](ch chan<- T) Case { return Case{sendProbe[T]{ch}} }
 //
 //go:norace
 func Send[T any](ch chan<- T, v T) {
-	if cur != nil {
+	if Active() {
 		Block("chan.send", sendProbe[T]{ch})
 		if Exiting() {
 			runtime.Goexit()
@@ -83,7 +97,7 @@ func Send[T any](ch chan<- T, v T) {
 //
 //go:norace
 func Recv[T any](ch <-chan T) T {
-	if cur != nil {
+	if Active() {
 		Block("chan.recv", recvProbe[T]{ch})
 		if Exiting() {
 			runtime.Goexit()
@@ -96,7 +110,7 @@ func Recv[T any](ch <-chan T) T {
 //
 //go:norace
 func Recv2[T any](ch <-chan T) (T, bool) {
-	if cur != nil {
+	if Active() {
 		Block("chan.recv", recvProbe[T]{ch})
 		if Exiting() {
 			runtime.Goexit()
@@ -110,10 +124,9 @@ func Recv2[T any](ch <-chan T) (T, bool) {
 //
 //go:norace
 func Close[T any](ch chan<- T) {
-	s := cur
-	if s != nil {
+	if Active() {
 		Yield("chan.close")
-		s.closed[chanPtr(ch)] = true
+		markClosed(chanPtr(ch))
 	}
 	close(ch)
 }
